@@ -9,6 +9,7 @@
     the base model M1 (driver op "accept" of the run family), (2) the observed teardown executions per entity must equal
     the teardown log of the extended model for the observed start order, and the model's "main process dies" flag must
     equal the implementation's.
+    Cases with delayed-created tasks (@create_after): (K) skipped (not expressible in M1), (P) evaluated.
 (P) the statement itself on the implementation's observations: Lean monitors C11_lazy / C11_setup_before /
     C11_td_exact / C11_td_after (driver, request kind "c11"), cross-checked by Python reference monitors below.
 """
@@ -57,7 +58,9 @@ META = {
     'rule': 'random DAGs of 3-8 tasks biased to setup / getargs edges with shared and nested setup-tasks, teardown on ~60% '
             'of the tasks (~25% of them failing: return False / raise), oracle per task (run/up-to-date/error, ignored, '
             'ok/failed/error), --continue/--always, selection all/names/targets, runner serial | thread k=1..4 x schedule '
-            'policy | process k=2,3; exhaustive tier: every DAG on <=3 tasks with task_dep/setup edges x every completion '
+            'policy | process k=2,3; plus namespaces with @create_after creators (with / without executed=) yielding sub-tasks '
+            'with teardown -- tasks created at run time reach worker processes as whole pickled Task objects -- under '
+            'serial / thread / process k=1..3 (teardown monitors only; K skipped: delayed creation is not in M1); exhaustive tier: every DAG on <=3 tasks with task_dep/setup edges x every completion '
             'order with 2 worker threads (thorough: <=4 tasks); non-trivial = a setup edge or a teardown task in the case and at least one task '
             'reported; distinct = distinct rendered case + schedule',
     'assumptions': ['actions touch only their own targets (granularity assumption of M1 for thread mode)',
@@ -91,6 +94,8 @@ def _make_td(rec, n, fail, who):
 
 
 def _build_namespace(case, rec):
+    if case.get('c11d'):
+        return build_delayed_namespace(case, rec)
     ns = _orig_build_namespace(case, rec)
     if not case.get('c11'):
         return ns
@@ -326,9 +331,10 @@ def _effective_sel(case, model):
 
 def py_monitors(case, obs, mixed):
     flags, wit = {}, {}
-    m = py_monitor_lazy(case, obs['trace'])
-    flags.update({k: m[k] for k in ('C11_lazy', 'C11_setup_before')})
-    wit.update(m['witness'])
+    if not case.get('c11d'):     # delayed-created tasks: the dependency structure is not expressible in M1
+        m = py_monitor_lazy(case, obs['trace'])
+        flags.update({k: m[k] for k in ('C11_lazy', 'C11_setup_before')})
+        wit.update(m['witness'])
     if td_applicable(case, obs):
         m = py_monitor_td(case, mixed)
         flags.update({k: m[k] for k in ('C11_td_exact', 'C11_td_after')})
@@ -406,6 +412,15 @@ def nontrivial(case, obs):
 
 def count_case(st, case, obs, mixed):
     runlib.count_case(st, case, obs)
+    if case.get('c11d'):
+        st.count('c11d:cases')
+        st.count('c11d:creators', len(case['creators']))
+        st.count('c11d:creator_executed=%s' % ('task' if any(cr.get('executed') for cr in case['creators']) else 'none'))
+        delayed = set(i for i, t in enumerate(case['tasks']) if t.get('delayed') and t['kind'] == 'sub')
+        st.count('c11d:delayed_tasks_started', sum(1 for e in mixed if e[0] == 'start' and e[1] in delayed))
+        st.count('c11d:delayed_teardowns_executed', sum(1 for e in mixed if e[0] == 'td' and e[1] in delayed))
+        if case['runner'] == 'process' and any(e[0] == 'td' and e[1] in delayed and e[2] >= 0 for e in mixed):
+            st.count('c11d:delayed_teardown_in_worker_process')
     m = case.get('model') or runlib.expand(case)
     n = m['n']
     parents = [i for i in range(n) if m['setup'][i]]
@@ -441,6 +456,298 @@ def count_case(st, case, obs, mixed):
 
 
 # ======================================================================================================
+# tasks created at run time by @create_after creators (sent to worker processes as whole pickled Task objects: JobTask)
+# ======================================================================================================
+#
+# DCASE = {'c11d': True, 'static': [{'name','task_dep':[names],'teardown':bool,'td_fail':False|True|'raise','outcome':'ok'|'failed'}],
+#          'creators': [{'fname': 'mk0', 'executed': None | static task name,
+#                        'yields': [{'sub': 'a', 'task_dep': [full names], 'teardown', 'td_fail', 'outcome'}]}],
+#          'runner', 'nproc', 'cont', 'policy'}            (no task argument: everything is run)
+# Task ids: the static tasks, then per creator its basename (the group task doit makes; no actions) and its sub-tasks.
+# The M1 model has no delayed creation: (K) is skipped for these cases; the teardown monitors (P) are evaluated as for
+# every other case (teardown of exactly the tasks whose actions started, per executing entity).
+
+_MAIN_PID = None
+_DSRC = 0
+
+
+def _who(rec):
+    if rec.mode == 'file':
+        return -1 if os.getpid() == _MAIN_PID else rec.worker
+    w = getattr(threading.current_thread(), '_sched_id', None)
+    return w if isinstance(w, int) else -1
+
+
+class DAct(object):
+    """python-action of a generated task; a picklable object (a delayed-created task is pickled whole by MRunner)"""
+
+    def __init__(self, n, outcome):
+        self.n, self.outcome = n, outcome
+        self.__name__ = 'act_%d' % n
+
+    def __call__(self):
+        rec = runlib._REC
+        w = rec.who()
+        rec.ev(['start', self.n, w])
+        rec.checkpoint(self.n)
+        rec.ev(['end', self.n, w])
+        return self.outcome == 'ok'
+
+
+class DTd(object):
+    """teardown action (picklable)"""
+
+    def __init__(self, n, fail):
+        self.n, self.fail = n, fail
+        self.__name__ = 'td_%d' % n
+
+    def __call__(self):
+        rec = runlib._REC
+        rec.ev(['td', self.n, _who(rec)])
+        if self.fail == 'raise':
+            raise RuntimeError('oracle says teardown error')
+        if self.fail:
+            return False
+
+
+def prep_delayed(case):
+    """derive the task list (ids) and a dependency-free model-level input from the spec"""
+    tasks = []
+    for t in case['static']:
+        d = runlib._new_task(t['name'])
+        d.update({'task_dep': list(t.get('task_dep', [])), 'teardown': bool(t.get('teardown')),
+                  'td_fail': t.get('td_fail', False), 'outcome': t.get('outcome', 'ok')})
+        tasks.append(d)
+    for cr in case['creators']:
+        g = runlib._new_task(cr['fname'], 'group')
+        g['delayed'] = True
+        tasks.append(g)
+        for y in cr['yields']:
+            d = runlib._new_task('%s:%s' % (cr['fname'], y['sub']), 'sub', cr['fname'])
+            d.update({'task_dep': list(y.get('task_dep', [])), 'teardown': bool(y.get('teardown')),
+                      'td_fail': y.get('td_fail', False), 'outcome': y.get('outcome', 'ok'), 'delayed': True})
+            tasks.append(d)
+    case['tasks'] = tasks
+    case['sel'] = None
+    case['always'] = False
+    n = len(tasks)
+    case['model'] = {'n': n, 'taskDep': [[] for _ in range(n)], 'setup': [[] for _ in range(n)],
+                     'calcDep': [[] for _ in range(n)], 'sel': list(range(n)), 'cont': bool(case.get('cont')),
+                     'always': False, 'runner': case['runner'], 'nproc': int(case.get('nproc', 0)),
+                     'ignored': [False] * n, 'status': ['run'] * n,
+                     'outcome': [t['outcome'] for t in tasks], 'argsOk': [True] * n,
+                     'teardown': [bool(t['teardown']) for t in tasks],
+                     'noAct': [t['kind'] == 'group' for t in tasks], 'calcRes': [None] * n}
+    return case
+
+
+def build_delayed_namespace(case, rec):
+    from doit.loader import create_after
+    import linecache
+    global _MAIN_PID, _DSRC
+    _MAIN_PID = os.getpid()
+    idx = runlib.task_index(case)
+
+    def task_dict(name, t):
+        n = idx[name]
+        d = {'actions': [DAct(n, t.get('outcome', 'ok'))]}
+        if t.get('task_dep'):
+            d['task_dep'] = list(t['task_dep'])
+        if t.get('teardown'):
+            d['teardown'] = [DTd(n, t.get('td_fail', False))]
+        return d
+
+    def static_gen():
+        for t in case['static']:
+            d = task_dict(t['name'], t)
+            d['basename'] = t['name']
+            yield d
+
+    def creator_of(cr):
+        def creator():
+            for y in cr['yields']:
+                d = task_dict('%s:%s' % (cr['fname'], y['sub']), y)
+                d['name'] = y['sub']
+                yield d
+        return creator
+
+    bodies = [('task_static0', static_gen, None)]
+    for cr in case['creators']:
+        kw = {}
+        if cr.get('executed'):
+            kw['executed'] = cr['executed']
+        bodies.append(('task_' + cr['fname'], creator_of(cr), kw))
+    # load_tasks orders creators by source line: give every function its own line in a synthetic source file
+    _DSRC += 1
+    fname = '/c11gen/case%d_%d.py' % (os.getpid(), _DSRC)
+    src, env = '', {}
+    for i, (key, body, kw) in enumerate(bodies):
+        env['_body_%d' % i] = body
+        src += 'def %s():\n    return _body_%d()\n\n' % (key, i)
+    linecache.cache[fname] = (len(src), None, src.splitlines(True), fname)
+    exec(compile(src, fname, 'exec'), env)
+    ns = {}
+    for key, body, kw in bodies:
+        ns[key] = create_after(**kw)(env[key]) if kw is not None else env[key]
+
+    class C11Reporter(runlib.RecReporter):
+        def cleanup_error(self, exception):
+            try:
+                msg = exception.get_msg()
+            except Exception:  # noqa
+                msg = str(exception)
+            name = msg.split("task '", 1)[1].split("'", 1)[0] if "task '" in msg else None
+            rec.ev(['cleanup_error', rec.ids.get(name, name), _who(rec)])
+    ns['DOIT_CONFIG'] = {'dep_file': 'db.json', 'backend': 'json', 'verbosity': 0, 'reporter': C11Reporter}
+    return ns
+
+
+def gen_delayed(seed, knobs):
+    rng = random.Random(seed)
+    runner = knobs.get('runner', 'process')
+    static = []
+    for i in range(rng.randint(1, 3)):
+        t = {'name': 's%d' % i, 'task_dep': [], 'teardown': rng.random() < 0.6, 'td_fail': False,
+             'outcome': 'failed' if rng.random() < 0.08 else 'ok'}
+        if i and rng.random() < 0.4:
+            t['task_dep'].append('s%d' % rng.randrange(i))
+        if t['teardown'] and rng.random() < 0.2:
+            t['td_fail'] = rng.choice([True, True, 'raise'])
+        static.append(t)
+    creators = []
+    for c in range(rng.choice([1, 1, 2])):
+        cr = {'fname': 'mk%d' % c, 'executed': rng.choice([None] + [t['name'] for t in static] * 2), 'yields': []}
+        for k in range(rng.randint(1, 3)):
+            y = {'sub': 'abc'[k], 'task_dep': [], 'teardown': rng.random() < 0.75, 'td_fail': False,
+                 'outcome': 'failed' if rng.random() < 0.1 else 'ok'}
+            r = rng.random()
+            if r < 0.25:
+                y['task_dep'].append(rng.choice(static)['name'])
+            elif r < 0.45 and k:
+                y['task_dep'].append('%s:%s' % (cr['fname'], 'abc'[rng.randrange(k)]))
+            if y['teardown'] and rng.random() < 0.2:
+                y['td_fail'] = rng.choice([True, True, 'raise'])
+            cr['yields'].append(y)
+        creators.append(cr)
+    case = {'c11': True, 'c11d': True, 'static': static, 'creators': creators, 'runner': runner,
+            'nproc': 0 if runner == 'serial' else rng.choice([1, 2, 2, 3]), 'cont': rng.random() < 0.4,
+            'policy': runlib.gen_policy(rng, 3) if runner == 'thread' else {'kind': 'seeded', 'seed': rng.randrange(1 << 30)},
+            'seed': seed}
+    return prep_delayed(case)
+
+
+def render_delayed(case):
+    lines = []
+    n = 0
+    for t in case['static']:
+        lines.append('#%d %-8s %s%s%s' % (n, t['name'], 'task_dep=%s ' % t['task_dep'] if t.get('task_dep') else '',
+                                          _orc(t), ''))
+        n += 1
+    for cr in case['creators']:
+        lines.append('#%d %-8s @create_after(%s) creator, yields:' % (
+            n, cr['fname'], 'executed=%r' % cr['executed'] if cr.get('executed') else ''))
+        n += 1
+        for y in cr['yields']:
+            lines.append('#%d   %-8s %s%s' % (n, '%s:%s' % (cr['fname'], y['sub']),
+                                             'task_dep=%s ' % y['task_dep'] if y.get('task_dep') else '', _orc(y)))
+            n += 1
+    lines.append('$ doit ' + ' '.join(runlib.argv_of(case)))
+    if case['runner'] == 'thread':
+        lines.append('schedule policy: %s%s' % (case.get('policy'),
+                                                '  script=%s' % case['schedule'] if case.get('schedule') else ''))
+    elif case['runner'] == 'process' and case.get('schedule'):
+        lines.append('token release order: %s' % case['schedule'])
+    return '\n'.join(lines)
+
+
+def _orc(t):
+    o = []
+    if t.get('outcome', 'ok') != 'ok':
+        o.append('action fails')
+    if t.get('teardown'):
+        o.append('teardown' + (' FAILS (%s)' % ('raises' if t['td_fail'] == 'raise' else 'returns False')
+                               if t.get('td_fail') else ''))
+    return ('[' + '; '.join(o) + ']') if o else ''
+
+
+def _delayed_variants(case):
+    base = {k: v for k, v in case.items() if k not in ('model', 'tasks', 'schedule', '_sel_impl')}
+
+    def clone():
+        return json.loads(json.dumps(base))
+    used = set(d for t in case['static'] for d in t.get('task_dep', []))
+    used |= set(d for cr in case['creators'] for y in cr['yields'] for d in y.get('task_dep', []))
+    used |= set(cr['executed'] for cr in case['creators'] if cr.get('executed'))
+    for i, cr in enumerate(case['creators']):
+        if len(case['creators']) > 1:
+            c = clone()
+            del c['creators'][i]
+            gone = set('%s:%s' % (cr['fname'], y['sub']) for y in cr['yields'])
+            if not (gone & used):
+                yield c
+        for j, y in enumerate(cr['yields']):
+            if len(cr['yields']) > 1 and '%s:%s' % (cr['fname'], y['sub']) not in used:
+                c = clone()
+                del c['creators'][i]['yields'][j]
+                yield c
+    for i, t in enumerate(case['static']):
+        if len(case['static']) > 1 and t['name'] not in used:
+            c = clone()
+            del c['static'][i]
+            yield c
+    for i, cr in enumerate(case['creators']):
+        if cr.get('executed'):
+            c = clone()
+            c['creators'][i]['executed'] = None
+            yield c
+        for j, y in enumerate(cr['yields']):
+            for key, val in (('task_dep', []), ('td_fail', False), ('outcome', 'ok'), ('teardown', False)):
+                if y.get(key) not in (val, None):
+                    c = clone()
+                    c['creators'][i]['yields'][j][key] = val
+                    yield c
+    for i, t in enumerate(case['static']):
+        for key, val in (('task_dep', []), ('td_fail', False), ('outcome', 'ok'), ('teardown', False)):
+            if t.get(key) not in (val, None):
+                c = clone()
+                c['static'][i][key] = val
+                yield c
+    if case.get('cont'):
+        c = clone()
+        c['cont'] = False
+        yield c
+    if case['runner'] != 'serial' and case['nproc'] > 1:
+        c = clone()
+        c['nproc'] = case['nproc'] - 1
+        yield c
+
+
+def shrink_delayed(case, first, max_seconds, max_tests=60):
+    cur = case
+    t0 = time.time()
+    tests = 0
+    progress = True
+    while progress and tests < max_tests and time.time() - t0 < max_seconds:
+        progress = False
+        for cand in _delayed_variants(cur):
+            if tests >= max_tests or time.time() - t0 > max_seconds:
+                break
+            tests += 1
+            try:
+                prep_delayed(cand)
+                o, mx = observe(cand)
+                p, _ = py_monitors(cand, o, mx)
+                ok = p.get(first, True) is False
+            except Exception:  # noqa
+                ok = False
+            if ok:
+                cur = cand
+                progress = True
+                break
+    return cur
+
+
+# ======================================================================================================
 # judging one case
 # ======================================================================================================
 
@@ -462,7 +769,7 @@ def post(case, obs):
 
 
 def make_witness(case, obs, mixed, failed, py, lean, detail):
-    c = {k: v for k, v in case.items() if k not in ('model', '_sel_impl')}
+    c = {k: v for k, v in case.items() if k not in ('model', '_sel_impl') and not (k == 'tasks' and case.get('c11d'))}
     c['schedule'] = obs.get('schedule')
     names = [t['name'] for t in case['tasks']]
 
@@ -478,6 +785,8 @@ def make_witness(case, obs, mixed, failed, py, lean, detail):
 
 
 def render(case):
+    if case.get('c11d'):
+        return render_delayed(case)
     lines = runlib.render(case).split('\n')
     for i, t in enumerate(case['tasks']):
         if t.get('td_fail'):
@@ -490,6 +799,9 @@ def failed_monitors(py, lean):
 
 
 def shrink_case(case, first, max_seconds):
+    if case.get('c11d'):
+        return shrink_delayed(case, first, max_seconds)
+
     def still(c):
         c['model'] = runlib.expand(c)
         o, mx = observe(c)
@@ -552,7 +864,9 @@ def judge(case, obs, mixed, base_ans, ans, st, shrink_left):
                           'python and Lean monitors disagree on %s' % disagree)
             return used
     # (K1) base model accepts the trace
-    if base_ans is None or 'error' in base_ans:
+    if case.get('c11d'):
+        st.count('k_skipped:delayed_creation_not_in_M1')
+    elif base_ans is None or 'error' in base_ans:
         st.count('driver_unavailable_base')
     else:
         if base_ans.get('skipped'):
@@ -598,11 +912,14 @@ def eval_batch(batch):
     for c in batch.get('cases', []):
         c = dict(c)
         c['c11'] = True
-        c['model'] = runlib.expand(c)
+        if c.get('c11d'):
+            prep_delayed(c)
+        else:
+            c['model'] = runlib.expand(c)
         o, mx = observe(c)
         triples.append((c, o, mx))
     for seed, knobs in batch.get('gen', []):
-        c = gen_case(seed, knobs)
+        c = gen_delayed(seed, knobs) if knobs.get('delayed') else gen_case(seed, knobs)
         o, mx = observe(c)
         triples.append((c, o, mx))
     for c in batch.get('exhaustive', []):
@@ -674,10 +991,16 @@ def plan(ctx, scale=1.0):
         gen.append((rng.randrange(1 << 60), dict(KNOBS, runner='serial')))
     for _ in range(n_thread):
         gen.append((rng.randrange(1 << 60), dict(KNOBS, runner='thread', gen_policy=True)))
+    for _ in range(int((40 if quick else 600) * ctx.boost * scale)):
+        gen.append((rng.randrange(1 << 60), {'delayed': True, 'runner': rng.choice(['serial', 'thread'])}))
     rng.shuffle(gen)
     size = 20 if quick else 60
     pool = [{'gen': gen[i:i + size], 'shrink_s': 12.0} for i in range(0, len(gen), size)]
     procs = [(rng.randrange(1 << 60), dict(KNOBS, runner='process', n_max=6, p_td_fail=0.25)) for _ in range(n_proc)]
+    # tasks created at run time travel to the worker processes as whole pickled Task objects (JobTask)
+    n_dproc = int((12 if quick else 100) * min(ctx.boost, 2) * scale)
+    procs += [(rng.randrange(1 << 60), {'delayed': True, 'runner': 'process'}) for _ in range(n_dproc)]
+    rng.shuffle(procs)
     return pool, [{'gen': procs[i:i + 5], 'shrink_s': 10.0} for i in range(0, len(procs), 5)]
 
 
@@ -742,7 +1065,10 @@ def replay(ctx, data):
         return False
     case = dict(case)
     case['c11'] = True
-    case['model'] = runlib.expand(case)
+    if case.get('c11d'):
+        prep_delayed(case)
+    else:
+        case['model'] = runlib.expand(case)
     print(render(case))
     obs, mixed = observe(case)
     names = [t['name'] for t in case['tasks']]
@@ -764,9 +1090,10 @@ def replay(ctx, data):
     if bad:
         print('FAILED monitors:', bad)
         return False
-    print('base model accepts the trace:', ba.get('accepted') if isinstance(ba, dict) else ba)
+    print('base model accepts the trace:', 'not applicable (delayed creation is not in M1)' if case.get('c11d') else
+          ba.get('accepted') if isinstance(ba, dict) else ba)
     if lean is not None:
         print('extended model teardown log:', a.get('model_td'), ' main dies:', a.get('model_crash'))
-    if data.get('failed') == 'correspondence' and isinstance(ba, dict) and not ba.get('accepted') and not ba.get('skipped'):
+    if data.get('failed') == 'correspondence' and not case.get('c11d') and isinstance(ba, dict) and not ba.get('accepted') and not ba.get('skipped'):
         return False
     return True
